@@ -113,6 +113,15 @@ def handle (inp out : List String) : String :=
   match inp, out with
   | ["ar4ja", _rate, _k], ["construction-panicked"] =>
     verdict ["ok"] out (some "the-construction-of-the-matrix-panicked")
+  | ["ar4jarows", rate, k, sample], [nr, nc, rs] =>
+    -- quick tier, k = 16384: a sample of rows, each computed by the model on its own from the standard's tables (insertion order included)
+    match rateIdx rate, k.toNat?, standardM rate (k.toNat?.getD 0), (sample.splitOn ",").mapM String.toNat? with
+    | some ri, some _, some m, some idx =>
+      let mlog := log2 m
+      let rows := idx.map (fun r => (rowCalls tables ri mlog r).foldl applyCall [])
+      let model := [toString (3 * m), toString (ar4jaNcols ri mlog), showLL rows]
+      verdict model out (if model ≠ [nr, nc, rs] then some "sampled-rows-differ-from-the-rows-of-the-standard's-construction" else none)
+    | _, _, _, _ => "BADLINE c07 ar4jarows"
   | ["ar4ja", rate, k], [nr, nc, rs, cs] =>
     match rateIdx rate, k.toNat?, nr.toNat?, nc.toNat?, parseLL rs with
     | some ri, some k, some nr, some nc, some rowsI =>
